@@ -233,7 +233,9 @@ LONG = 5000          # digits: beyond sys.get_int_max_str_digits() (4300)
 
 # the error report must not depend on status / logging / output options
 FLAGS = [[], [], ["--no-status"], ["--quiet"], ["--log-level", "CRITICAL"], ["--log-level", "ERROR"], ["--no-color"], ["--color"],
-         ["-e"], ["-d"], ["-j"], ["-k"], ["--debug"]]     # (--html always prints its page skeleton: not a diff, left out)
+         ["-e"], ["-d"], ["-j"], ["-k"], ["--debug"], ["-l"], ["-ll"], ["--dict-strategy", "match"], ["-f", "json"], ["-f", "yaml"],
+         ["--match-if", "from == to"], ["--match-unless", "len(str(from)) > 3"], ["-e", "--match-if", "True"],
+         ["--join-lists"], ["--join-dict-items"], ["-ds", "none", "-d"]]     # (--html always prints its page skeleton: not a diff, left out)
 
 
 def _sample(rng, xs, n):
